@@ -269,6 +269,29 @@ CLAIMED = {
         "(positive VTB/TVTB vectors raise ImportError); tolerance 1e-8 / 1e-7 on relations.",
         "DESIGN.md section 5, C19",
     ),
+    "C01": (
+        "Coq/MathComp proof of compiler correctness (structural induction over expression trees, generic in a commutative "
+        "ring and in any algebra satisfying the AbstractAlgebra contract, instantiated for HRR, VTB, TVTB) about a "
+        "hand-written executable model of ast/dynamic.py + connectors; Direct-mode simulation of the networks the real "
+        "operators build, compared in Coq with Semantic-Pointer arithmetic and with the model's build/connect_to, plus a "
+        "structural comparison of the AST objects",
+        "Theorems for every commutative ring, every expression tree (no depth bound), all source values: whenever the "
+        "operator methods accept an expression (build e = Ok), e >> sink delivers eval_sp e (Semantic-Pointer arithmetic), "
+        "for HRR/VTB/TVTB with every valid dimensionality and for any lawful algebra; pending-transform composition "
+        "np.dot(outer, inner) is composition for all 13 shape combinations; scalar fan-in vs Superposition; several "
+        "statements add; the built node is well shaped. Clause 'fixed pointer scaled by a dynamic scalar': proved for typed "
+        "symbols (after fix 61ffec1), REFUTED for SemanticPointer objects (NotImplementedError; known finding). PARTIAL: "
+        "ideal components are assumed (Direct mode: a connection delivers transform*value, modules compute their function "
+        "exactly, steady state); vocabularies are identified with their dimensionality (vocabulary identity: C02); "
+        "Transcode adapters, symbols without vocabulary and NumPy number kinds are covered by the tie only. Tie: "
+        "bounded-exhaustive operator x operand-kind x order layer at depth 1-2 plus random trees to depth 3 (5), 1-3 "
+        "statements per sink, nine Transcode/State source forms, two sink forms, HRR d in {4,5} ({3,4,5,8}), VTB/TVTB d in "
+        "{4,16} ({4,9,16}); ill-typed combinations must raise.",
+        "Trusted: Coq kernel + vm_compute; Model/Dynamic.v and Model/Parse.v (specification evaluator with radicands); "
+        "Nengo's builder and Direct-mode simulator as the realisation of 'ideal neurons'; harness (generator, renderers, "
+        "Z.sqrt comparator).",
+        "DESIGN.md section 5, C01",
+    ),
     "C05": (
         "Coq/MathComp proofs (index arithmetic of the product-unit layout; the per-block MatrixMult composition equals the "
         "kron/reshape binding core; helper matrices are the transposition) about a hand-written executable model of the "
